@@ -75,6 +75,36 @@ def harness(tier, seed):
             q[:, :] = y[order, :]
             q.n_bins = y.n_bins
             packs.append(q)
+            # arbitrary feasible layout: items dropped at random free positions (not bottom-left justified, e.g. a tall
+            # item standing in the middle of a flat one), rows in random order
+            placed = []
+            nb = 1
+            for r in order:
+                w, h = int(y[r, 4] - y[r, 2]), int(y[r, 5] - y[r, 3])
+                done = False
+                for b_ in list(range(1, nb + 1)) + [nb + 1]:
+                    for _t in range(25 if b_ <= nb else 1):
+                        if b_ > nb:
+                            px, py = 0, 0
+                        else:
+                            px, py = rng.randint(0, W - w), rng.randint(0, H - h)
+                            below = [p for p in placed if p[1] == b_ and p[4] > px and p[2] < px + w and p[5] <= py]
+                            if below and rng.random() < 0.7:
+                                py = max(p[5] for p in below)       # stand on top of something
+                                if py + h > H:
+                                    continue
+                        if all(not (p[1] == b_ and p[4] > px and p[2] < px + w and p[5] > py and p[3] < py + h) for p in placed):
+                            placed.append([int(y[r, 0]), b_, px, py, px + w, py + h])
+                            nb = max(nb, b_)
+                            done = True
+                            break
+                    if done:
+                        break
+            a_ = Packing(inst)
+            for pos, row in enumerate(placed):
+                a_[pos, :] = row
+            a_.n_bins = nb
+            packs.append(a_)
         for y in packs:
             rows = [[int(v) for v in y[r]] for r in range(n)]
             exp = oracle(rows, n, W, H)
@@ -104,10 +134,33 @@ def harness(tier, seed):
                 for (k2, f2) in lst:
                     if k1 < k2 and not f1 < f2:
                         viol.append((f"{name}/dominance", {"W": W, "H": H}, f"bins {k1}<{k2} but values {f1}>={f2}"))
+    # ---- magnitudes beyond 2**53: bins of 10^12 x 10^4, one item per bin (the skyline of such a bin is the item itself)
+    from moptipyapps.binpacking2d.instance import Instance
+    big = Instance("big", 10 ** 12, 10 ** 4, [[30000, 10000, 2], [1, 1, 1]])
+    yb = Packing(big)
+    yb[0, :] = [1, 1, 0, 0, 30000, 10000]
+    yb[1, :] = [1, 2, 0, 0, 30000, 10000]
+    yb[2, :] = [2, 3, 0, 0, 1, 1]
+    yb.n_bins = 3
+    A = 10 ** 16
+    want_big = {"binCount": 3, "binCountAndLastEmpty": 3 * 2 + 1, "binCountAndEmpty": 3 * 2 + 1, "binCountAndLastSmall": 2 * A + 1,
+                "binCountAndSmall": 2 * A + 1, "binCountAndLastSkyline": 2 * A + 1, "binCountAndLowestSkyline": 2 * A + 1}
+    for c in classes:
+        o = c(big)
+        name = str(o)
+        got = int(o.evaluate(yb))
+        evals += 1
+        info = {"W": 10 ** 12, "H": 10 ** 4, "rows": [[int(v) for v in yb[r]] for r in range(3)], "objective": name}
+        if got != want_big[name]:
+            viol.append((f"{name}/value", info, f"evaluate={got} documented value={want_big[name]}"))
+        elif int(o.to_bin_count(got)) != 3:
+            viol.append((f"{name}/to_bin_count", info, f"to_bin_count({got})={o.to_bin_count(got)} bins=3"))
+        elif not (o.lower_bound() <= got <= o.upper_bound()):
+            viol.append((f"{name}/bounds", info, f"{got} not in [{o.lower_bound()}, {o.upper_bound()}]"))
     seen = set()
     viol = [v for v in viol if not (v[0] in seen or seen.add(v[0]))]
     return {"name": "objectives_oracle", "evaluations": evals, "distinct_nontrivial": len(distinct),
-            "rule": "random small instances (bin area <= 4000), per instance 12 feasible packings (both decoders, "
+            "rule": "random small instances (bin area <= 4000), per instance 16 feasible packings (both decoders, random non-bottom-left placements, "
                     "one-item-per-bin sparse layouts with shuffled rows, row-permuted copies) x 7 objectives; value vs "
                     "independent recomputation, declared bounds, to_bin_count, pairwise strict dominance; distinct = "
                     "distinct (objective, packing) pairs",
